@@ -474,6 +474,9 @@ fn c02_histories(req: &Value) -> Value {
 		("absent", None),
 		("empty", Some(vec![])),
 		("garbage-20k", Some(vec![b'#'; 20000])),
+		// the path is a symbolic link to a regular file (a common way to place files elsewhere)
+		("symlink-to-garbage-20k", Some(vec![b'#'; 20000])),
+		("symlink-dangling", None),
 	];
 	let mut histories = 0u64;
 	let mut writes = 0u64;
@@ -500,7 +503,14 @@ fn c02_histories(req: &Value) -> Value {
 		for seq in seqs.iter() {
 			histories += 1;
 			let _ = std::fs::remove_file(&path);
-			if let Some(d) = init {
+			if iname.starts_with("symlink") {
+				let target = std::path::PathBuf::from(format!("{}.target", path.display()));
+				let _ = std::fs::remove_file(&target);
+				if let Some(d) = init {
+					std::fs::write(&target, d).unwrap();
+				}
+				std::os::unix::fs::symlink(&target, &path).unwrap();
+			} else if let Some(d) = init {
 				std::fs::write(&path, d).unwrap();
 			}
 			let mut prev_len: i64 = init.as_ref().map(|d| d.len() as i64).unwrap_or(-1);
